@@ -47,9 +47,8 @@ def rank (order : List (Nat × Nat)) (t : Nat) : Option Nat :=
 
 /-! ### stable sort by key (Python `sorted(xs, key=…)`) -/
 
-/-- insert `x` before the first element whose key is ≥ key x … no: `x` comes from the left of
-    everything already in the list, so it goes before the first element with key ≥ its own,
-    which keeps equal keys in input order (stability). -/
+/-- `x` stood to the left of everything already in the list: it goes before the first element
+    whose key is ≥ its own, which keeps equal keys in input order (stability). -/
 def insertByKey {α} (key : α → Nat) (x : α) : List α → List α
   | [] => [x]
   | y :: ys => if key x ≤ key y then x :: y :: ys else y :: insertByKey key x ys
